@@ -19,7 +19,9 @@ RULE = ('generated models (ints, huge/tiny/negative floats, non-ASCII and '
         'compiled, after evaluating every cell, after overwriting inputs with '
         'natives and with Excel-type objects, after evaluating again; half '
         'of the models go through all points as ONE object} x extension in {.json, .gz, '
-        '.gzip, .GZ, .JSON, none}.  non-trivial = round trip taken after '
+        '.gzip, .GZ, .JSON, none}; some models hold a formula flagged '
+        'evaluate=False over a stored value; the loading Model is fresh or has '
+        'loaded another file before.  non-trivial = round trip taken after '
         'evaluation or overwrite, or containing a range/name/date/error; '
         'distinct by (model, persist point, extension)')
 ASSUMPTIONS = [
@@ -28,7 +30,8 @@ ASSUMPTIONS = [
 ]
 FLOORS = {'round_trips': 150, 'point_uncompiled': 10, 'point_compiled': 10,
           'point_evaluated': 10, 'point_overwritten': 10, 'point_reevaluated': 5, 'gzip_files': 20,
-          'plain_files': 20, 'evaluations_compared': 500}
+          'plain_files': 20, 'evaluations_compared': 500,
+          'reused_loader': 20, 'frozen_formula_models': 10}
 ANCHOR_FUNCS = {'xlcalculator/model.py': ['Model.persist_to_json_file',
                                           'Model.construct_from_json_file',
                                           'Model.build_code']}
@@ -58,7 +61,8 @@ def snapshot(model):
         cells[a] = (getattr(c, 'address', '?'),
                     nan_safe(monitors.norm(c.value)),
                     c.formula.formula if getattr(c, 'formula', None) is not None
-                    else None)
+                    else None,
+                    getattr(getattr(c, 'formula', None), 'evaluate', True))
     names = {}
     for n, d in model.defined_names.items():
         if hasattr(d, 'cells') and isinstance(d.cells, list):
@@ -93,6 +97,7 @@ def run(ctx):
     out = os.path.join(bootstrap.VERIF, 'out', 'c12')
     os.makedirs(out, exist_ok=True)
     n_models = (2500 if thorough else 96) // ctx.nshards
+    loader = None
     for mi in range(n_models):
         sheets = ('Sheet1',) if rng.random() < 0.6 else ('Sheet1', 'Q1 2020')
         use_xlsx = rng.random() < 0.5
@@ -122,6 +127,7 @@ def run(ctx):
         xpath = os.path.join(out, f's{ctx.shard}.xlsx')
         same_object = rng.random() < 0.5     # one model through all points
         model = None
+        frozen_key = rng.choice(m.formulas) if rng.random() < 0.4 else None
         for point in ('uncompiled', 'compiled', 'evaluated', 'overwritten',
                       'reevaluated'):
             ext = rng.choice(EXTS)
@@ -157,6 +163,15 @@ def run(ctx):
                          {'cells': build.dict_of(wb)}, monitor='construction',
                          group='build')
                 break
+            if not reuse and frozen_key is not None:
+                # a formula kept for reference only: the cell answers its
+                # stored value (XLFormula.evaluate is False)
+                fa = build.addr(frozen_key)
+                fcell = model.cells.get(fa)
+                if fcell is not None and hasattr(fcell.formula, 'evaluate'):
+                    fcell.formula.evaluate = False
+                    fcell.value = 4242
+                    ctx.event('frozen_formula_models')
             ev = Evaluator(model)
             if point in ('evaluated', 'overwritten', 'reevaluated'):
                 for a in list(model.cells):
@@ -181,8 +196,15 @@ def run(ctx):
                 model.persist_to_json_file(fname)
                 with open(fname, 'rb') as fp:
                     magic = fp.read(2)
-                restored = Model()
+                # the loading Model is a fresh one, or one that has already
+                # loaded another file before
+                if loader is not None and rng.random() < 0.4:
+                    restored = loader
+                    ctx.event('reused_loader')
+                else:
+                    restored = Model()
                 restored.construct_from_json_file(fname, build_code=True)
+                loader = restored
             except Exception as e:  # noqa
                 ctx.fail(f'persist/restore at point {point!r} with extension '
                          f'{ext!r} raised {type(e).__name__}: {str(e)[:200]}',
